@@ -83,6 +83,11 @@ where
         T: AsRef<Path>,
     {
         let file_name = Arc::new(file_name.as_ref().to_owned());
+        // issue #54 "Lookahead exceeds token buffer length" with simple grammar:
+        // Ensure that k is at least 1 and at most MAX_K.
+        // The token iterator needs the same k: with k == 0 it would not yield the EOI token at
+        // the end of the input, and text after the last token would never become a token.
+        let k = std::cmp::max(1, k);
         // To output the compiled automata as dot files uncomment the following two lines
         // const TARGET_FOLDER: &str = concat!(env!("CARGO_MANIFEST_DIR"), "/../../target");
         // let _ = scanner.generate_compiled_automata_as_dot("Parol", Path::new(TARGET_FOLDER));
@@ -92,10 +97,6 @@ where
             file_name.clone(),
             k,
         );
-
-        // issue #54 "Lookahead exceeds token buffer length" with simple grammar:
-        // Ensure that k is at least 1 and at most MAX_K
-        let k = std::cmp::max(1, k);
 
         let mut token_stream = Self {
             k,
